@@ -6,6 +6,7 @@ Offsets are `Nat`; the Go code uses `uint32`, and the shard format rejects conte
 wrap-around is reachable (trusted-base item: `content.length < 2^32`).
 -/
 import ZoektModel.Basic.Bytes
+import ZoektModel.Basic.Utf8
 namespace ZoektModel.C37
 
 structure Sec where
@@ -86,5 +87,25 @@ def lastStop : List Sec → Nat
 
 def addAccepts (contentLen : Nat) (secs : List Sec) : Bool :=
   chainOk secs && decide (lastStop secs ≤ contentLen)
+
+/-- `newSearchableString`'s section-boundary loop: at every decoding step, pop the boundaries equal to the current byte
+    count; returns the final byte count and the boundaries never matched. -/
+def walk : Nat → Bytes → Nat → List Nat → Nat × List Nat
+  | _, [], c, bs => (c, bs)
+  | 0, _ :: _, c, bs => (c, bs)
+  | fuel + 1, b0 :: rest, c, bs =>
+    walk fuel ((b0 :: rest).drop (Utf8.dsz (b0 :: rest))) (c + Utf8.dsz (b0 :: rest)) (bs.dropWhile (· == c))
+
+def boundaries (secs : List Sec) : List Nat := secs.flatMap fun s => [s.start, s.stop]
+
+/-- no "no rune for section boundary" error: after the loop the first unmatched boundary (if any) is not below the byte count -/
+def runeAligned (content : Bytes) (secs : List Sec) : Bool :=
+  match (walk content.length content 0 (boundaries secs)).2 with
+  | [] => true
+  | b :: _ => !(decide (b < (walk content.length content 0 (boundaries secs)).1))
+
+/-- all section-related checks of `ShardBuilder.Add` -/
+def addAcceptsFull (content : Bytes) (secs : List Sec) : Bool :=
+  addAccepts content.length secs && runeAligned content secs
 
 end ZoektModel.C37
